@@ -18,7 +18,7 @@ RULE  = ("one case = one real Multiprocessor.filter call in a fresh process: (n_
 PLAN  = {"quick":    {"shards": 8, "parallel": 5, "cases": 120,  "timeout": 900},
          "thorough": {"shards": 8, "parallel": 5, "cases": 3000, "timeout": 6000}}
 REQUIRED = ["oracle.exactly-once", "oracle.pid-quota", "oracle.exception-contract", "oracle.abandon", "observed.restarts",
-            "observed.multi-worker-runs", "perturb.line-events", "oracle.reuse-same-object", "oracle.reuse-same-object-after-abandon", "oracle.none-outputs", "oracle.exception-hard-to-transport"]
+            "observed.multi-worker-runs", "perturb.line-events", "oracle.reuse-same-object", "oracle.reuse-same-object-after-abandon", "oracle.none-outputs", "oracle.exception-hard-to-transport", "oracle.big-outputs-slow-consumer"]
 ASSUMPTIONS = ["resource exhaustion over hundreds of worker replacements (descriptors kept per finished worker until RLIMIT_NOFILE is reached) is not explored: the deadlock inspector of the case process keeps every started worker object alive itself, so a low descriptor limit makes the harness run out of descriptors on the unchanged code too",
                "items and outputs can be pickled (an output that cannot travel between processes is outside the quantifier); None is a legal item and a legal output",
                "CobaMultiprocessor deliberately turns the RuntimeError family into coba_exit (spawn bootstrapping guard): through it such an exception may reach the caller as CobaExit carrying the message", "order of outputs is not asserted (multiset)",
@@ -244,6 +244,14 @@ def run_shard(ctx):
     try:
         for i in range(ctx.n):
             spec = gen_case(ctx.rng, i)
+            if i == 1 and ctx.shard == 3:
+                # outputs much larger than a pipe buffer and a caller that does not read for a while: workers that are done with their
+                # items stay alive flushing their outputs; every output must still arrive exactly once
+                spec.update(n=2, m=ctx.rng.choice([0, 1, 2]), n_items=6, kmap={str(u): 1 for u in range(6)}, raising=[], raising_kind="none", abandon=None,
+                            perturb={"kind": "none"}, worker_jitter_ms=0, loader_jitter_ms=0, consumer_jitter_ms=0, none_items=[], none_outputs=[], reuse=0,
+                            reuse_after_abandon=0, finish_during_replacement=False, tail_delay_ms=0, mode="gen", via="plain", pattern="big-outputs-slow-consumer",
+                            big_out_kb=2000, consumer_pause_s=7.0, watchdog_s=70)
+                ctx.count("oracle.big-outputs-slow-consumer")
             v = check_case(spec, ctx, workdir)
             if i < 1: ctx.sample({k: spec[k] for k in ("n", "m", "n_items", "via", "mode", "pattern", "raising", "abandon", "perturb")})
             for sig, what in v: ctx.violation(sig, what, spec)
